@@ -17,6 +17,67 @@ import CRModel.Basic
 
 namespace CR.EqHash
 
+/-- The class families with a hand-written `__eq__` / `__hash__` pair (AngleInterval inherits Interval's, every state class
+    State's).  "For every class" in the theorems means: for every constructor of this type. -/
+inductive Cls where
+  | Rectangle | Circle | Polygon | ShapeGroup | Interval | Time
+  | State | SignalState | MetaInformationState | Trajectory | Occupancy | SetBasedPrediction
+  | TrajectoryPrediction | StaticObstacle | DynamicObstacle | PhantomObstacle | EnvironmentObstacle | StopLine
+  | Lanelet | MapInformation | LaneletNetwork | TrafficSignElement | TrafficSign | TrafficLightCycleElement
+  | TrafficLightCycle | TrafficLight | IntersectionIncomingElement | Intersection | AreaBorder | Area
+  | GoalRegion | PlanningProblem | PlanningProblemSet | GeoTransformation | Environment | Location
+  | ScenarioID | Scenario
+  deriving DecidableEq, Repr, Inhabited
+
+def Cls.all : List Cls := [.Rectangle, .Circle, .Polygon, .ShapeGroup, .Interval, .Time, .State, .SignalState,
+  .MetaInformationState, .Trajectory, .Occupancy, .SetBasedPrediction, .TrajectoryPrediction, .StaticObstacle, .DynamicObstacle, .PhantomObstacle,
+  .EnvironmentObstacle, .StopLine, .Lanelet, .MapInformation, .LaneletNetwork, .TrafficSignElement, .TrafficSign, .TrafficLightCycleElement,
+  .TrafficLightCycle, .TrafficLight, .IntersectionIncomingElement, .Intersection, .AreaBorder, .Area, .GoalRegion, .PlanningProblem,
+  .PlanningProblemSet, .GeoTransformation, .Environment, .Location, .ScenarioID, .Scenario]
+
+def Cls.name : Cls → String
+  | .Rectangle => "Rectangle"
+  | .Circle => "Circle"
+  | .Polygon => "Polygon"
+  | .ShapeGroup => "ShapeGroup"
+  | .Interval => "Interval"
+  | .Time => "Time"
+  | .State => "State"
+  | .SignalState => "SignalState"
+  | .MetaInformationState => "MetaInformationState"
+  | .Trajectory => "Trajectory"
+  | .Occupancy => "Occupancy"
+  | .SetBasedPrediction => "SetBasedPrediction"
+  | .TrajectoryPrediction => "TrajectoryPrediction"
+  | .StaticObstacle => "StaticObstacle"
+  | .DynamicObstacle => "DynamicObstacle"
+  | .PhantomObstacle => "PhantomObstacle"
+  | .EnvironmentObstacle => "EnvironmentObstacle"
+  | .StopLine => "StopLine"
+  | .Lanelet => "Lanelet"
+  | .MapInformation => "MapInformation"
+  | .LaneletNetwork => "LaneletNetwork"
+  | .TrafficSignElement => "TrafficSignElement"
+  | .TrafficSign => "TrafficSign"
+  | .TrafficLightCycleElement => "TrafficLightCycleElement"
+  | .TrafficLightCycle => "TrafficLightCycle"
+  | .TrafficLight => "TrafficLight"
+  | .IntersectionIncomingElement => "IntersectionIncomingElement"
+  | .Intersection => "Intersection"
+  | .AreaBorder => "AreaBorder"
+  | .Area => "Area"
+  | .GoalRegion => "GoalRegion"
+  | .PlanningProblem => "PlanningProblem"
+  | .PlanningProblemSet => "PlanningProblemSet"
+  | .GeoTransformation => "GeoTransformation"
+  | .Environment => "Environment"
+  | .Location => "Location"
+  | .ScenarioID => "ScenarioID"
+  | .Scenario => "Scenario"
+
+/-- class family of a name; `none` for a name that is not in the list (the driver reports that as an error) -/
+def Cls.ofName? (s : String) : Option Cls := Cls.all.find? (fun c => c.name == s)
+
 /-- Attribute values.  Lists, tuples, sets, dict item lists and numpy arrays are cons-chains. -/
 inductive Val where
   | none                          -- Python `None`
@@ -24,7 +85,7 @@ inductive Val where
   | str (s : String)              -- str and enum members ("LineMarking.DASHED")
   | nil
   | cons (h t : Val)
-  | obj (c : String) (f : Val)    -- object of class family `c` with its attribute values `f` (a chain, table order)
+  | obj (c : Cls) (f : Val)       -- object of class family `c` with its attribute values `f` (a chain, table order)
   deriving DecidableEq, Repr, Inhabited
 
 /-- `SignalState`: a slot that was never assigned (`hasattr` is False). -/
@@ -40,7 +101,7 @@ inductive Kind where
   | consK (k kt : Kind)           -- first element under `k`, the remaining chain under `kt` (dict items `[key, value]`)
   | setNE                         -- `setOf eq`, where `None` is read as the empty set
   | setNA                         -- `setOf eq` over the elements other than `absent` (hash of SignalState)
-  | fields (c : String) (i : Nat) -- aux: attribute chain of class `c` from attribute number `i` on
+  | fields (c : Cls) (i : Nat)    -- aux: attribute chain of class `c` from attribute number `i` on
   | sub (k : Kind)                -- aux: every element of the left chain has a partner in the right chain
   | cover (k : Kind)              -- aux: some element of the left chain is a partner of the right value
   | subNA                         -- aux: `sub eq` ignoring `absent` elements on the left
@@ -49,8 +110,8 @@ inductive Kind where
 /-- Class tables: kind of attribute `i` of class `c`, and the kind under which the whole attribute chain of an object of
     class `c` is compared (`fields c 0` except for the value-set hash of SignalState). -/
 structure Table where
-  attr : String → Nat → Kind
-  whole : String → Kind
+  attr : Cls → Nat → Kind
+  whole : Cls → Kind
 
 /-- `round(x, 10)` / `np.around(x, 10)`: index of the 10-decimal bucket (nearest multiple of 10⁻¹⁰). -/
 def round10 (r : Rat) : Int := (r * 10000000000 + 1 / 2).floor
@@ -114,9 +175,11 @@ structure AttrRow where
   deriving Repr
 
 structure ClassRow where
-  name : String
   attrs : List AttrRow
-  /-- kinds of attributes beyond the listed ones (State: every further value; otherwise unused) -/
+  /-- the object carries further, dynamically named attributes after the listed ones (State: one value per attribute
+      name, in sorted name order), compared under `restEq` / hashed under `restHash` -/
+  dynamic : Bool := false
+  /-- kinds of the values beyond the listed attributes -/
   restEq : Kind := .eq
   restHash : Kind := .eq
   /-- kind of the whole attribute chain under `__hash__` (`none`: attribute-wise) -/
@@ -137,134 +200,265 @@ private def ls (n : String) : AttrRow := ⟨n, .eq, .setOf .eq⟩
 def dictOfSets : Kind := .setOf (.consK .eq (.listOf (.setOf .eq)))
 
 /-- The table of every class family (state of the repaired tree; file:line of `__eq__` / `__hash__`). -/
-def classes : List ClassRow := [
+def row : Cls → ClassRow
   -- geometry/shape.py:64-84  length, width, orientation exact; center rounded
-  { name := "Rectangle", attrs := [x "length", x "width", r "center", x "orientation"] },
+  | .Rectangle => { attrs := [x "length", x "width", r "center", x "orientation"] }
   -- shape.py:244-259
-  { name := "Circle", attrs := [x "radius", r "center"] },
+  | .Circle => { attrs := [x "radius", r "center"] }
   -- shape.py:353-366  (vertices = the normalised, closed, clockwise ring)
-  { name := "Polygon", attrs := [r "vertices"] },
+  | .Polygon => { attrs := [r "vertices"] }
   -- shape.py:469-477  list == list ; hash(frozenset(shapes))
-  { name := "ShapeGroup", attrs := [ls "shapes"] },
+  | .ShapeGroup => { attrs := [ls "shapes"] }
   -- common/util.py:67-75 (AngleInterval inherits both)
-  { name := "Interval", attrs := [x "start", x "end"] },
+  | .Interval => { attrs := [x "start", x "end"] }
   -- util.py:263-279
-  { name := "Time", attrs := [x "hours", x "minutes", x "day", x "month", x "year"] },
+  | .Time => { attrs := [x "hours", x "minutes", x "day", x "month", x "year"] }
   -- scenario/state.py:131-172  attribute 0 = the set of attribute names (== only), then every value: floats and the
   -- position array rounded to 10 decimals, anything else with `!=`; hash: the same values in sorted attribute order
-  { name := "State", attrs := [a "attributes" .eq .skip], restEq := .r10, restHash := .r10 },
+  | .State => { attrs := [a "attributes" .eq .skip], dynamic := true, restEq := .r10, restHash := .r10 }
   -- state.py:666-694  slot-wise == (absent ≠ None); hash(frozenset(values of the assigned slots))
-  { name := "SignalState",
-    attrs := [x "horn", x "indicator_left", x "indicator_right", x "braking_lights", x "hazard_warning_lights",
-              x "flashing_blue_lights", x "time_step"],
-    wholeHash := some .setNA },
+  | .SignalState => { attrs := [x "horn", x "indicator_left", x "indicator_right", x "braking_lights", x "hazard_warning_lights",
+                                        x "flashing_blue_lights", x "time_step"],
+                                        wholeHash := some .setNA }
   -- state.py MetaInformationState: four dicts (== ; json.dumps(sort_keys=True))
-  { name := "MetaInformationState",
-    attrs := [s "meta_data_str", s "meta_data_int", s "meta_data_float", s "meta_data_bool"] },
+  | .MetaInformationState => { attrs := [s "meta_data_str", s "meta_data_int", s "meta_data_float", s "meta_data_bool"] }
   -- scenario/trajectory.py:74-82
-  { name := "Trajectory", attrs := [x "initial_time_step", x "state_list"] },
+  | .Trajectory => { attrs := [x "initial_time_step", x "state_list"] }
   -- prediction/prediction.py:40-48
-  { name := "Occupancy", attrs := [x "time_step", x "shape"] },
+  | .Occupancy => { attrs := [x "time_step", x "shape"] }
   -- prediction.py:159-167
-  { name := "SetBasedPrediction", attrs := [x "initial_time_step", ls "occupancy_set"] },
+  | .SetBasedPrediction => { attrs := [x "initial_time_step", ls "occupancy_set"] }
   -- prediction.py:247-281
-  { name := "TrajectoryPrediction",
-    attrs := [x "trajectory", x "shape", a "center_lanelet_assignment" dictOfSets dictOfSets,
-              a "shape_lanelet_assignment" dictOfSets dictOfSets] },
+  | .TrajectoryPrediction => { attrs := [x "trajectory", x "shape", a "center_lanelet_assignment" dictOfSets dictOfSets,
+                                        a "shape_lanelet_assignment" dictOfSets dictOfSets] }
   -- scenario/obstacle.py:114-162 (+391-399): None id sets are read as empty sets by both
-  { name := "StaticObstacle",
-    attrs := [x "obstacle_id", x "obstacle_type", x "obstacle_shape", x "initial_state",
-              a "initial_center_lanelet_ids" .setNE .setNE, a "initial_shape_lanelet_ids" .setNE .setNE,
-              x "initial_signal_state", x "signal_series"] },
+  | .StaticObstacle => { attrs := [x "obstacle_id", x "obstacle_type", x "obstacle_shape", x "initial_state",
+                                        a "initial_center_lanelet_ids" .setNE .setNE, a "initial_shape_lanelet_ids" .setNE .setNE,
+                                        x "initial_signal_state", x "signal_series"] }
   -- obstacle.py:513-554
-  { name := "DynamicObstacle",
-    attrs := [x "obstacle_id", x "obstacle_type", x "obstacle_shape", x "initial_state", x "prediction",
-              a "initial_center_lanelet_ids" .setNE .setNE, a "initial_shape_lanelet_ids" .setNE .setNE,
-              x "initial_signal_state", x "signal_series", x "initial_meta_information_state",
-              x "meta_information_series", x "external_dataset_id", x "history", x "signal_history",
-              a "center_lanelet_ids_history" (.listOf (.setOf .eq)) (.listOf (.setOf .eq)),
-              a "shape_lanelet_ids_history" (.listOf (.setOf .eq)) (.listOf (.setOf .eq))] },
+  | .DynamicObstacle => { attrs := [x "obstacle_id", x "obstacle_type", x "obstacle_shape", x "initial_state", x "prediction",
+                                        a "initial_center_lanelet_ids" .setNE .setNE, a "initial_shape_lanelet_ids" .setNE .setNE,
+                                        x "initial_signal_state", x "signal_series", x "initial_meta_information_state",
+                                        x "meta_information_series", x "external_dataset_id", x "history", x "signal_history",
+                                        a "center_lanelet_ids_history" (.listOf (.setOf .eq)) (.listOf (.setOf .eq)),
+                                        a "shape_lanelet_ids_history" (.listOf (.setOf .eq)) (.listOf (.setOf .eq))] }
   -- obstacle.py:754-764
-  { name := "PhantomObstacle", attrs := [x "obstacle_id", x "prediction"] },
+  | .PhantomObstacle => { attrs := [x "obstacle_id", x "prediction"] }
   -- obstacle.py:864-879
-  { name := "EnvironmentObstacle", attrs := [x "obstacle_id", x "obstacle_type", x "obstacle_shape"] },
+  | .EnvironmentObstacle => { attrs := [x "obstacle_id", x "obstacle_type", x "obstacle_shape"] }
   -- common/common_lanelet.py:91-121
-  { name := "StopLine",
-    attrs := [r "start", r "end", x "line_marking", s "traffic_sign_ref", s "traffic_light_ref"] },
+  | .StopLine => { attrs := [r "start", r "end", x "line_marking", s "traffic_sign_ref", s "traffic_light_ref"] }
   -- scenario/lanelet.py:196-266
-  { name := "Lanelet",
-    attrs := [r "left_vertices", r "center_vertices", r "right_vertices", x "lanelet_id", s "predecessor", s "successor",
-              x "adj_left", x "adj_left_same_direction", x "adj_right", x "adj_right_same_direction",
-              x "line_marking_left_vertices", x "line_marking_right_vertices", x "stop_line", s "lanelet_type",
-              s "user_one_way", s "user_bidirectional", s "traffic_signs", s "traffic_lights", s "adjacent_areas"] },
+  | .Lanelet => { attrs := [r "left_vertices", r "center_vertices", r "right_vertices", x "lanelet_id", s "predecessor", s "successor",
+                                        x "adj_left", x "adj_left_same_direction", x "adj_right", x "adj_right_same_direction",
+                                        x "line_marking_left_vertices", x "line_marking_right_vertices", x "stop_line", s "lanelet_type",
+                                        s "user_one_way", s "user_bidirectional", s "traffic_signs", s "traffic_lights", s "adjacent_areas"] }
   -- lanelet.py:1133-1175
-  { name := "MapInformation",
-    attrs := [x "commonroad_version", x "map_id", x "date", x "author", x "affiliation", x "source", x "licence_name",
-              x "licence_text"] },
+  | .MapInformation => { attrs := [x "commonroad_version", x "map_id", x "date", x "author", x "affiliation", x "source", x "licence_name",
+                                        x "licence_text"] }
   -- lanelet.py:1317-1357  five dicts id -> element compared key-wise = as sets of elements
-  { name := "LaneletNetwork",
-    attrs := [x "information", s "lanelets", s "intersections", s "traffic_signs", s "traffic_lights", s "areas"] },
+  | .LaneletNetwork => { attrs := [x "information", s "lanelets", s "intersections", s "traffic_signs", s "traffic_lights", s "areas"] }
   -- scenario/traffic_sign.py:801-814
-  { name := "TrafficSignElement", attrs := [x "traffic_sign_element_id", s "additional_values"] },
+  | .TrafficSignElement => { attrs := [x "traffic_sign_element_id", s "additional_values"] }
   -- traffic_sign.py:870-914  elements compared through a dict keyed by element id / hashed as a frozenset
-  { name := "TrafficSign",
-    attrs := [x "traffic_sign_id", s "traffic_sign_elements", s "first_occurrence", r "position", x "virtual"] },
+  | .TrafficSign => { attrs := [x "traffic_sign_id", s "traffic_sign_elements", s "first_occurrence", r "position", x "virtual"] }
   -- scenario/traffic_light.py:61-69
-  { name := "TrafficLightCycleElement", attrs := [x "state", x "duration"] },
+  | .TrafficLightCycleElement => { attrs := [x "state", x "duration"] }
   -- traffic_light.py:112-124
-  { name := "TrafficLightCycle", attrs := [ls "cycle_elements", x "time_offset", x "active"] },
+  | .TrafficLightCycle => { attrs := [ls "cycle_elements", x "time_offset", x "active"] }
   -- traffic_light.py:216-246
-  { name := "TrafficLight",
-    attrs := [x "traffic_light_id", r "position", x "traffic_light_cycle", ls "color", x "active", x "direction",
-              x "shape"] },
+  | .TrafficLight => { attrs := [x "traffic_light_id", r "position", x "traffic_light_cycle", ls "color", x "active", x "direction",
+                                        x "shape"] }
   -- scenario/intersection.py:43-70
-  { name := "IntersectionIncomingElement",
-    attrs := [x "incoming_id", s "incoming_lanelets", s "successors_right", s "successors_straight", s "successors_left",
-              x "left_of"] },
+  | .IntersectionIncomingElement => { attrs := [x "incoming_id", s "incoming_lanelets", s "successors_right", s "successors_straight", s "successors_left",
+                                        x "left_of"] }
   -- intersection.py:204-228  incomings through a dict keyed by incoming id / frozenset
-  { name := "Intersection", attrs := [x "intersection_id", s "incomings", s "crossings"] },
+  | .Intersection => { attrs := [x "intersection_id", s "incomings", s "crossings"] }
   -- scenario/area.py:96-118
-  { name := "AreaBorder", attrs := [x "area_border_id", r "border_vertices", x "adjacent", x "line_marking"] },
+  | .AreaBorder => { attrs := [x "area_border_id", r "border_vertices", x "adjacent", x "line_marking"] }
   -- area.py:177-190  area_types: == on sets; hash reads None as the empty set
-  { name := "Area", attrs := [x "area_id", x "border", a "area_types" (.setOf .eq) .setNE] },
+  | .Area => { attrs := [x "area_id", x "border", a "area_types" (.setOf .eq) .setNE] }
   -- planning/goal.py:40-60  lanelets_of_goal_position: dict items `[index, [ids]]`
-  { name := "GoalRegion", attrs := [x "state_list", s "lanelets_of_goal_position"] },
+  | .GoalRegion => { attrs := [x "state_list", s "lanelets_of_goal_position"] }
   -- planning/planning_problem.py:25-37
-  { name := "PlanningProblem", attrs := [x "planning_problem_id", x "initial_state", x "goal"] },
+  | .PlanningProblem => { attrs := [x "planning_problem_id", x "initial_state", x "goal"] }
   -- planning_problem.py:122-131  dict id -> problem
-  { name := "PlanningProblemSet", attrs := [s "planning_problem_dict"] },
+  | .PlanningProblemSet => { attrs := [s "planning_problem_dict"] }
   -- scenario/scenario.py:150-164
-  { name := "GeoTransformation",
-    attrs := [x "geo_reference", x "x_translation", x "y_translation", x "z_rotation", x "scaling"] },
+  | .GeoTransformation => { attrs := [x "geo_reference", x "x_translation", x "y_translation", x "z_rotation", x "scaling"] }
   -- scenario.py:227-240
-  { name := "Environment", attrs := [x "time", x "time_of_day", x "weather", x "underground"] },
+  | .Environment => { attrs := [x "time", x "time_of_day", x "weather", x "underground"] }
   -- scenario.py:302-318
-  { name := "Location",
-    attrs := [x "geo_name_id", x "gps_latitude", x "gps_longitude", x "geo_transformation", x "environment"] },
+  | .Location => { attrs := [x "geo_name_id", x "gps_latitude", x "gps_longitude", x "geo_transformation", x "environment"] }
   -- scenario.py:427-458
-  { name := "ScenarioID",
-    attrs := [x "cooperative", x "country_id", x "map_name", x "map_id", x "configuration_id", x "obstacle_behavior",
-              x "prediction_id", x "scenario_version"] },
+  | .ScenarioID => { attrs := [x "cooperative", x "country_id", x "map_name", x "map_id", x "configuration_id", x "obstacle_behavior",
+                                        x "prediction_id", x "scenario_version"] }
   -- scenario.py:597-636  dt through str(dt); the obstacle lists in insertion order
-  { name := "Scenario",
-    attrs := [x "dt", x "scenario_id", x "author", s "tags", x "affiliation", x "source", x "location", x "lanelet_network",
-              x "static_obstacles", x "dynamic_obstacles", x "environment_obstacle", x "phantom_obstacle"] }
+  | .Scenario => { attrs := [x "dt", x "scenario_id", x "author", s "tags", x "affiliation", x "source", x "location", x "lanelet_network",
+                                        x "static_obstacles", x "dynamic_obstacles", x "environment_obstacle", x "phantom_obstacle"] }
+
+/-- kinds of attribute `i` of class `c` as (eq kind, hash kind) -/
+def kinds (c : Cls) (i : Nat) : Kind × Kind :=
+  match (row c).attrs[i]? with
+  | some ar => (ar.eqK, ar.hashK)
+  | none => ((row c).restEq, (row c).restHash)
+
+def wholeHashKind (c : Cls) : Kind := (row c).wholeHash.getD (.fields c 0)
+
+/-! ## Constructor signatures -/
+
+/-- one public constructor: Python class, class family whose `__eq__`/`__hash__` it uses, and for every constructor
+    parameter (in signature order, without `self` / `**kwargs`) the attribute (getter) it is stored in.  State classes:
+    the dataclass fields; SignalState: its `__slots__`; CustomState takes only keyword attributes (dynamic).
+    The harness compares this list with `inspect.signature` of the working tree on every run. -/
+structure CtorRow where
+  cls : String
+  family : Cls
+  params : List (String × String)
+  deriving Repr
+
+def ctors : List CtorRow := [
+  ⟨"Rectangle", .Rectangle, [("length", "length"), ("width", "width"), ("center", "center"), ("orientation",
+     "orientation")]⟩,
+  ⟨"Circle", .Circle, [("radius", "radius"), ("center", "center")]⟩,
+  ⟨"Polygon", .Polygon, [("vertices", "vertices")]⟩,
+  ⟨"ShapeGroup", .ShapeGroup, [("shapes", "shapes")]⟩,
+  ⟨"Interval", .Interval, [("start", "start"), ("end", "end")]⟩,
+  ⟨"AngleInterval", .Interval, [("start", "start"), ("end", "end")]⟩,
+  ⟨"Time", .Time, [("hours", "hours"), ("minutes", "minutes"), ("day", "day"), ("month", "month"), ("year",
+     "year")]⟩,
+  ⟨"InitialState", .State, [("time_step", "time_step"), ("position", "position"), ("orientation", "orientation"),
+     ("velocity", "velocity"), ("acceleration", "acceleration"), ("yaw_rate", "yaw_rate"), ("slip_angle",
+     "slip_angle")]⟩,
+  ⟨"PMState", .State, [("time_step", "time_step"), ("position", "position"), ("velocity", "velocity"),
+     ("velocity_y", "velocity_y")]⟩,
+  ⟨"ExtendedPMState", .State, [("time_step", "time_step"), ("position", "position"), ("velocity", "velocity"),
+     ("orientation", "orientation"), ("acceleration", "acceleration")]⟩,
+  ⟨"KSState", .State, [("time_step", "time_step"), ("position", "position"), ("steering_angle", "steering_angle"),
+     ("velocity", "velocity"), ("orientation", "orientation")]⟩,
+  ⟨"KSTState", .State, [("time_step", "time_step"), ("position", "position"), ("steering_angle", "steering_angle"),
+     ("velocity", "velocity"), ("orientation", "orientation"), ("hitch_angle", "hitch_angle")]⟩,
+  ⟨"STState", .State, [("time_step", "time_step"), ("position", "position"), ("steering_angle", "steering_angle"),
+     ("velocity", "velocity"), ("orientation", "orientation"), ("slip_angle", "slip_angle"), ("yaw_rate",
+     "yaw_rate")]⟩,
+  ⟨"STDState", .State, [("time_step", "time_step"), ("position", "position"), ("steering_angle", "steering_angle"),
+     ("velocity", "velocity"), ("orientation", "orientation"), ("slip_angle", "slip_angle"), ("yaw_rate",
+     "yaw_rate"), ("front_wheel_angular_speed", "front_wheel_angular_speed"), ("rear_wheel_angular_speed",
+     "rear_wheel_angular_speed")]⟩,
+  ⟨"MBState", .State, [("time_step", "time_step"), ("position", "position"), ("steering_angle", "steering_angle"),
+     ("velocity", "velocity"), ("orientation", "orientation"), ("yaw_rate", "yaw_rate"), ("roll_angle",
+     "roll_angle"), ("roll_rate", "roll_rate"), ("pitch_angle", "pitch_angle"), ("pitch_rate", "pitch_rate"),
+     ("velocity_y", "velocity_y"), ("position_z", "position_z"), ("velocity_z", "velocity_z"), ("roll_angle_front",
+     "roll_angle_front"), ("roll_rate_front", "roll_rate_front"), ("velocity_y_front", "velocity_y_front"),
+     ("position_z_front", "position_z_front"), ("velocity_z_front", "velocity_z_front"), ("roll_angle_rear",
+     "roll_angle_rear"), ("roll_rate_rear", "roll_rate_rear"), ("velocity_y_rear", "velocity_y_rear"),
+     ("position_z_rear", "position_z_rear"), ("velocity_z_rear", "velocity_z_rear"),
+     ("left_front_wheel_angular_speed", "left_front_wheel_angular_speed"), ("right_front_wheel_angular_speed",
+     "right_front_wheel_angular_speed"), ("left_rear_wheel_angular_speed", "left_rear_wheel_angular_speed"),
+     ("right_rear_wheel_angular_speed", "right_rear_wheel_angular_speed"), ("delta_y_f", "delta_y_f"), ("delta_y_r",
+     "delta_y_r")]⟩,
+  ⟨"LongitudinalState", .State, [("time_step", "time_step"), ("longitudinal_position", "longitudinal_position"),
+     ("velocity", "velocity"), ("acceleration", "acceleration"), ("jerk", "jerk")]⟩,
+  ⟨"LateralState", .State, [("time_step", "time_step"), ("lateral_position", "lateral_position"), ("orientation",
+     "orientation"), ("curvature", "curvature"), ("curvature_rate", "curvature_rate")]⟩,
+  ⟨"InputState", .State, [("time_step", "time_step"), ("steering_angle_speed", "steering_angle_speed"),
+     ("acceleration", "acceleration")]⟩,
+  ⟨"PMInputState", .State, [("time_step", "time_step"), ("acceleration", "acceleration"), ("acceleration_y",
+     "acceleration_y")]⟩,
+  ⟨"LKSInputState", .State, [("time_step", "time_step"), ("jerk_dot", "jerk_dot"), ("kappa_dot_dot",
+     "kappa_dot_dot")]⟩,
+  ⟨"CustomState", .State, []⟩,
+  ⟨"SignalState", .SignalState, [("horn", "horn"), ("indicator_left", "indicator_left"), ("indicator_right",
+     "indicator_right"), ("braking_lights", "braking_lights"), ("hazard_warning_lights", "hazard_warning_lights"),
+     ("flashing_blue_lights", "flashing_blue_lights"), ("time_step", "time_step")]⟩,
+  ⟨"MetaInformationState", .MetaInformationState, [("meta_data_str", "meta_data_str"), ("meta_data_int",
+     "meta_data_int"), ("meta_data_float", "meta_data_float"), ("meta_data_bool", "meta_data_bool")]⟩,
+  ⟨"Trajectory", .Trajectory, [("initial_time_step", "initial_time_step"), ("state_list", "state_list")]⟩,
+  ⟨"Occupancy", .Occupancy, [("time_step", "time_step"), ("shape", "shape")]⟩,
+  ⟨"SetBasedPrediction", .SetBasedPrediction, [("initial_time_step", "initial_time_step"), ("occupancy_set",
+     "occupancy_set")]⟩,
+  ⟨"TrajectoryPrediction", .TrajectoryPrediction, [("trajectory", "trajectory"), ("shape", "shape"),
+     ("center_lanelet_assignment", "center_lanelet_assignment"), ("shape_lanelet_assignment",
+     "shape_lanelet_assignment")]⟩,
+  ⟨"StaticObstacle", .StaticObstacle, [("obstacle_id", "obstacle_id"), ("obstacle_type", "obstacle_type"),
+     ("obstacle_shape", "obstacle_shape"), ("initial_state", "initial_state"), ("initial_center_lanelet_ids",
+     "initial_center_lanelet_ids"), ("initial_shape_lanelet_ids", "initial_shape_lanelet_ids"),
+     ("initial_signal_state", "initial_signal_state"), ("signal_series", "signal_series")]⟩,
+  ⟨"DynamicObstacle", .DynamicObstacle, [("obstacle_id", "obstacle_id"), ("obstacle_type", "obstacle_type"),
+     ("obstacle_shape", "obstacle_shape"), ("initial_state", "initial_state"), ("prediction", "prediction"),
+     ("initial_center_lanelet_ids", "initial_center_lanelet_ids"), ("initial_shape_lanelet_ids",
+     "initial_shape_lanelet_ids"), ("initial_signal_state", "initial_signal_state"), ("signal_series",
+     "signal_series"), ("initial_meta_information_state", "initial_meta_information_state"),
+     ("meta_information_series", "meta_information_series"), ("external_dataset_id", "external_dataset_id"),
+     ("history", "history"), ("signal_history", "signal_history"), ("center_lanelet_ids_history",
+     "center_lanelet_ids_history"), ("shape_lanelet_ids_history", "shape_lanelet_ids_history")]⟩,
+  ⟨"PhantomObstacle", .PhantomObstacle, [("obstacle_id", "obstacle_id"), ("prediction", "prediction")]⟩,
+  ⟨"EnvironmentObstacle", .EnvironmentObstacle, [("obstacle_id", "obstacle_id"), ("obstacle_type", "obstacle_type"),
+     ("obstacle_shape", "obstacle_shape")]⟩,
+  ⟨"StopLine", .StopLine, [("start", "start"), ("end", "end"), ("line_marking", "line_marking"),
+     ("traffic_sign_ref", "traffic_sign_ref"), ("traffic_light_ref", "traffic_light_ref")]⟩,
+  ⟨"Lanelet", .Lanelet, [("left_vertices", "left_vertices"), ("center_vertices", "center_vertices"),
+     ("right_vertices", "right_vertices"), ("lanelet_id", "lanelet_id"), ("predecessor", "predecessor"),
+     ("successor", "successor"), ("adjacent_left", "adj_left"), ("adjacent_left_same_direction",
+     "adj_left_same_direction"), ("adjacent_right", "adj_right"), ("adjacent_right_same_direction",
+     "adj_right_same_direction"), ("line_marking_left_vertices", "line_marking_left_vertices"),
+     ("line_marking_right_vertices", "line_marking_right_vertices"), ("stop_line", "stop_line"), ("lanelet_type",
+     "lanelet_type"), ("user_one_way", "user_one_way"), ("user_bidirectional", "user_bidirectional"),
+     ("traffic_signs", "traffic_signs"), ("traffic_lights", "traffic_lights"), ("adjacent_areas",
+     "adjacent_areas")]⟩,
+  ⟨"MapInformation", .MapInformation, [("commonroad_version", "commonroad_version"), ("map_id", "map_id"), ("date",
+     "date"), ("author", "author"), ("affiliation", "affiliation"), ("source", "source"), ("licence_name",
+     "licence_name"), ("licence_text", "licence_text")]⟩,
+  ⟨"TrafficSignElement", .TrafficSignElement, [("traffic_sign_element_id", "traffic_sign_element_id"),
+     ("additional_values", "additional_values")]⟩,
+  ⟨"TrafficSign", .TrafficSign, [("traffic_sign_id", "traffic_sign_id"), ("traffic_sign_elements",
+     "traffic_sign_elements"), ("first_occurrence", "first_occurrence"), ("position", "position"), ("virtual",
+     "virtual")]⟩,
+  ⟨"TrafficLightCycleElement", .TrafficLightCycleElement, [("state", "state"), ("duration", "duration")]⟩,
+  ⟨"TrafficLightCycle", .TrafficLightCycle, [("cycle_elements", "cycle_elements"), ("time_offset", "time_offset"),
+     ("active", "active")]⟩,
+  ⟨"TrafficLight", .TrafficLight, [("traffic_light_id", "traffic_light_id"), ("position", "position"),
+     ("traffic_light_cycle", "traffic_light_cycle"), ("color", "color"), ("active", "active"), ("direction",
+     "direction"), ("shape", "shape")]⟩,
+  ⟨"IntersectionIncomingElement", .IntersectionIncomingElement, [("incoming_id", "incoming_id"),
+     ("incoming_lanelets", "incoming_lanelets"), ("successors_right", "successors_right"), ("successors_straight",
+     "successors_straight"), ("successors_left", "successors_left"), ("left_of", "left_of")]⟩,
+  ⟨"Intersection", .Intersection, [("intersection_id", "intersection_id"), ("incomings", "incomings"), ("crossings",
+     "crossings")]⟩,
+  ⟨"AreaBorder", .AreaBorder, [("area_border_id", "area_border_id"), ("border_vertices", "border_vertices"),
+     ("adjacent", "adjacent"), ("line_marking", "line_marking")]⟩,
+  ⟨"Area", .Area, [("area_id", "area_id"), ("border", "border"), ("area_types", "area_types")]⟩,
+  ⟨"LaneletNetwork", .LaneletNetwork, [("information", "information")]⟩,
+  ⟨"GoalRegion", .GoalRegion, [("state_list", "state_list"), ("lanelets_of_goal_position",
+     "lanelets_of_goal_position")]⟩,
+  ⟨"PlanningProblem", .PlanningProblem, [("planning_problem_id", "planning_problem_id"), ("initial_state",
+     "initial_state"), ("goal_region", "goal")]⟩,
+  ⟨"PlanningProblemSet", .PlanningProblemSet, [("planning_problem_list", "planning_problem_dict")]⟩,
+  ⟨"GeoTransformation", .GeoTransformation, [("geo_reference", "geo_reference"), ("x_translation", "x_translation"),
+     ("y_translation", "y_translation"), ("z_rotation", "z_rotation"), ("scaling", "scaling")]⟩,
+  ⟨"Environment", .Environment, [("time", "time"), ("time_of_day", "time_of_day"), ("weather", "weather"),
+     ("underground", "underground")]⟩,
+  ⟨"Location", .Location, [("geo_name_id", "geo_name_id"), ("gps_latitude", "gps_latitude"), ("gps_longitude",
+     "gps_longitude"), ("geo_transformation", "geo_transformation"), ("environment", "environment")]⟩,
+  ⟨"ScenarioID", .ScenarioID, [("cooperative", "cooperative"), ("country_id", "country_id"), ("map_name",
+     "map_name"), ("map_id", "map_id"), ("configuration_id", "configuration_id"), ("obstacle_behavior",
+     "obstacle_behavior"), ("prediction_id", "prediction_id"), ("scenario_version", "scenario_version")]⟩,
+  ⟨"Scenario", .Scenario, [("dt", "dt"), ("scenario_id", "scenario_id"), ("author", "author"), ("tags", "tags"),
+     ("affiliation", "affiliation"), ("source", "source"), ("location", "location")]⟩
 ]
 
-def findClass (c : String) : Option ClassRow := classes.find? (fun row => row.name == c)
+/-- the attributes of `LaneletNetwork` and `Scenario` that are filled through `add_*` / `add_objects`, not the constructor -/
+def contentAttrs : Cls → List String
+  | .LaneletNetwork => ["lanelets", "intersections", "traffic_signs", "traffic_lights", "areas"]
+  | .Scenario => ["lanelet_network", "static_obstacles", "dynamic_obstacles", "environment_obstacle", "phantom_obstacle"]
+  | _ => []
 
-/-- kinds of attribute `i` of class `c` as (eq kind, hash kind); an unknown class is compared attribute-wise with `==` -/
-def kinds (c : String) (i : Nat) : Kind × Kind :=
-  match findClass c with
-  | some row => match row.attrs[i]? with
-    | some ar => (ar.eqK, ar.hashK)
-    | none => (row.restEq, row.restHash)
-  | none => (.eq, .eq)
-
-def wholeHashKind (c : String) : Kind :=
-  match findClass c with
-  | some row => row.wholeHash.getD (.fields c 0)
-  | none => .fields c 0
+/-- kind under which `__eq__` of family `c` compares the attribute named `a`: the listed row, or `restEq` for the
+    dynamically named attributes of a dynamic family; `none` if `__eq__` does not know the attribute -/
+def eqKindOfAttr (c : Cls) (a : String) : Option Kind :=
+  match (row c).attrs.find? (fun ar => ar.name == a) with
+  | some ar => some ar.eqK
+  | none => if (row c).dynamic then some (row c).restEq else none
 
 /-- the table read by `__eq__` -/
 def eqT : Table := { attr := fun c i => (kinds c i).1, whole := fun c => .fields c 0 }
